@@ -86,6 +86,77 @@ Definition calculate_bic_penalty (base : option rvmodel) (cand : rvmodel) (ss : 
        end.
 End Pen.
 
+(* ---- MFL search spaces: get_penalty_parameters_mfl.  The expansion of the MFL strings into mode / count sets
+   (tools/mfl parse + ModelFeatures, property C18) is an oracle: the expanded attributes are inputs.  An attribute
+   is [None] when the candidate's attribute is empty (skipped). *)
+Inductive absm := AB_FO | AB_ZO | AB_SEQ | AB_INST.
+Inductive elm := EL_FO | EL_MM | EL_MIX.
+Definition absm_eqb (a b : absm) : bool :=
+  match a, b with AB_FO, AB_FO | AB_ZO, AB_ZO | AB_SEQ, AB_SEQ | AB_INST, AB_INST => true | _, _ => false end.
+Definition elm_rank (e : elm) : nat := match e with EL_FO => 0 | EL_MM => 1 | EL_MIX => 2 end.
+Record mfl_in := mkMfl {
+  mf_abs : option (list absm * absm);                     (* search-space modes, candidate mode *)
+  mf_elim : option (list elm * elm);
+  mf_trans : option (nat * bool * list Z * bool * Z);     (* len(ss), DEPOT in ss.eval.depot, ss.counts, DEPOT in the candidate's depot, candidate counts[0] *)
+  mf_per : option (nat * Z);                              (* len(ss), candidate counts[0] *)
+  mf_lag : option (nat * bool)                            (* len(ss), candidate mode is ON *)
+}.
+Definition b2z (b : bool) : Z := if b then 1%Z else 0%Z.
+Definition abs_counts (a : option (list absm * absm)) : Z * Z :=
+  match a with
+  | None => (0, 0)%Z
+  | Some (ss, c) =>
+      if Nat.eqb (length ss) 1 then (0, 0)%Z
+      else let has_seq := existsb (absm_eqb AB_SEQ) ss in
+           let has_inst := existsb (absm_eqb AB_INST) ss in
+           ((b2z has_seq + b2z has_inst)%Z,
+            (b2z (absm_eqb c AB_SEQ) + (if has_inst then b2z (negb (absm_eqb c AB_INST)) else 0))%Z)
+  end.
+Fixpoint ins_elm (x : elm) (l : list elm) : list elm :=
+  match l with [] => [x] | y :: tl => if Nat.ltb (elm_rank x) (elm_rank y) then x :: l else y :: ins_elm x tl end.
+Fixpoint index_elm (x : elm) (l : list elm) (i : nat) : option nat :=
+  match l with [] => None | y :: tl => if Nat.eqb (elm_rank x) (elm_rank y) then Some i else index_elm x tl (S i) end.
+Definition elim_counts (a : option (list elm * elm)) : res (Z * Z) :=
+  match a with
+  | None => Ok (0, 0)%Z
+  | Some (ss, c) =>
+      if Nat.eqb (length ss) 1 then Ok (0, 0)%Z
+      else match index_elm c (fold_right ins_elm [] ss) 0 with
+           | Some i => Ok ((Z.of_nat (length ss) - 1)%Z, Z.of_nat i)
+           | None => Err EValue                                 (* list.index: not in list *)
+           end
+  end.
+Definition trans_counts (a : option (nat * bool * list Z * bool * Z)) : Z * Z :=
+  match a with
+  | None => (0, 0)%Z
+  | Some (len, ss_depot, counts, c_depot, c0) =>
+      if Nat.eqb len 1 then (0, 0)%Z
+      else if ss_depot then (Z.of_nat (length (filter (fun n => (0 <? n)%Z) counts)),
+                             if c_depot then b2z (0 <? c0)%Z else 0%Z)
+      else (0, 0)%Z
+  end.
+Definition per_counts (a : option (nat * Z)) : Z * Z :=
+  match a with None => (0, 0)%Z | Some (len, c0) => if Nat.eqb len 1 then (0, 0)%Z else ((Z.of_nat len - 1)%Z, c0) end.
+Definition lag_counts (a : option (nat * bool)) : Z * Z :=
+  match a with None => (0, 0)%Z | Some (len, on) => if Nat.eqb len 1 then (0, 0)%Z else (1%Z, b2z on) end.
+Definition zadd2 (a b : Z * Z) : Z * Z := ((fst a + fst b)%Z, (snd a + snd b)%Z).
+Definition mfl_counts (m : mfl_in) : res (Z * Z) :=            (* (p, k_p) *)
+  match elim_counts (mf_elim m) with
+  | Err e => Err e
+  | Ok e => Ok (zadd2 (abs_counts (mf_abs m)) (zadd2 e (zadd2 (trans_counts (mf_trans m))
+                (zadd2 (per_counts (mf_per m)) (lag_counts (mf_lag m))))))
+  end.
+(* calculate_bic_penalty(candidate, search_space: str | ModelFeatures, base_model, E_p, E_q) *)
+Definition calculate_bic_penalty_mfl (logq : Q -> option Q) (has_base : bool) (m : mfl_in) (Ep Eq : option Q) : res Q :=
+  if has_base then Err EValue
+  else match Ep with
+       | None => Err EValue
+       | Some _ => match mfl_counts m with
+                   | Err e => Err e
+                   | Ok (p, kp) => penalty_formula logq p kp 0 0 Ep Eq
+                   end
+       end.
+
 (* ---- comparison *)
 Record pcase := mkPcase {
   pc_base : option rvmodel; pc_cand : rvmodel; pc_ss : list ssopt; pc_nkeep : nat;
@@ -104,6 +175,18 @@ Definition pverdict (c : pcase) : list nat :=
    | Some o, Some b => if counts_eqb (penalty_counts b (pc_cand c) (pc_ss c) (pc_nkeep c)) o then [] else [8]
    | _, _ => [] end) ++
   (match calculate_bic_penalty (tab_logq (pc_logs c)) (pc_base c) (pc_cand c) (pc_ss c) (pc_nkeep c) (pc_Ep c) (pc_Eq c), pc_obs c with
+   | Ok x, Ok y => if Qle_bool (Qabs (x - y)) ((1 # 1000000000) * (1 + Qabs x)) then [] else [8]
+   | Err EValue, Err EValue | Err EKey, Err EKey | Err EInternal, Err EInternal => []
+   | _, _ => [8] end).
+
+Record mcase := mkMcase { mc_in : mfl_in; mc_has_base : bool; mc_Ep : option Q; mc_Eq : option Q;
+                          mc_logs : list (Q * option Q); mc_counts : option (Z * Z); mc_obs : res Q }.
+Definition mverdict (c : mcase) : list nat :=
+  (match mc_counts c, mfl_counts (mc_in c) with
+   | Some (p, k), Ok (p', k') => if Z.eqb p p' && Z.eqb k k' then [] else [8]
+   | Some _, Err _ => [8]
+   | None, _ => [] end) ++
+  (match calculate_bic_penalty_mfl (tab_logq (mc_logs c)) (mc_has_base c) (mc_in c) (mc_Ep c) (mc_Eq c), mc_obs c with
    | Ok x, Ok y => if Qle_bool (Qabs (x - y)) ((1 # 1000000000) * (1 + Qabs x)) then [] else [8]
    | Err EValue, Err EValue | Err EKey, Err EKey | Err EInternal, Err EInternal => []
    | _, _ => [8] end).
